@@ -136,6 +136,8 @@ CURATED = {
     'k_ortho_w8': C('Composite', O(C('Composite', L, C('Composite', L, L)), L, L, L, L, L, C('Resumable', L, C('Resumable', L, L)), C('Composite', L, L)), L),
     # wide random regions of plain states (rounding in the cumulative walk, trailing zero utilities)
     'k_random_wide': C('Composite', C('Random', L, L, L, L, L, L), C('Random', L, L, L, C('Utilitarian', L, L), L), L),
+    # orthogonal regions nested directly in orthogonal regions, below composite regions that are inactive part of the time
+    'k_ortho_in_ortho': C('Composite', L, C('Composite', L, O(O(L, L, C('Composite', L, L)), L, C('Resumable', L, L))), O(O(L, L), L)),
     # width-1 regions (no save/load)
     'k_width1': C('Composite', C('Composite', L), C('Resumable', C('Composite', L, L)), L),
 }
@@ -233,7 +235,7 @@ def emit_tu(sj, header='<hfsm2/machine.hpp>', main='vh_main.hpp', extra_defs='')
     def body(i):
         # methods listed in the mask are NOT overridden: the using-declaration re-exposes the library's empty default
         return ' '.join('using FSM::State::%s;' % m for m in mask.get(i, []))
-    defs = '\n'.join('struct N%d : vh::Node<%d, %d, %s> { %s };' % (i, i, len(nodes[i]['children']), ('FSM::StateT<vh::VInj<%d>>' % i) if i in inj else 'FSM::State', body(i)) for i in named)
+    defs = '\n'.join('struct N%d : vh::Node<%d, %d, %s> { %s };' % (i, i, len(nodes[i]['children']), (('FSM::StateT<vh::VInj<%d>, vh::VInj2<%d>>' % (i, i)) if i % 2 == 1 else ('FSM::StateT<vh::VInj<%d>>' % i)) if i in inj else 'FSM::State', body(i)) for i in named)
     fill = '\n'.join('\tp.expectThis[%d] = &m.template access<N%d>();' % (i, i) for i in named)
     ids = '\n'.join('\tout[%d] = (int)FSM::stateId<N%d>();' % (i, i) for i in named)
     rids = '\n'.join('\tout[%d] = (int)FSM::regionId<N%d>();' % (nodes[i]['region'], i) for i in named if nodes[i]['kind'] != 'L')
